@@ -153,3 +153,10 @@ Theorem C15_ml_training_run_equivariant (D : nat) (a b : list R) (eps : R) (uw :
   = Some (aff_machine a b mc', n, map (fun l => l - sumlnabs a) hist).
 Proof. exact (ml_fit_affine_no_threshold D a b eps uw cap X mc mc' n hist). Qed.
 Print Assumptions C15_ml_training_run_equivariant.
+
+(* Known finding D15 (DESIGN.md 9.4): the mean update divides by the floored count; for a numerically starved component the update is
+   not shift-equivariant.  Refuted with a witness; for counts at or above the floor C15_ml_training_step_equivariant applies. *)
+Theorem C15_starved_component_mean_update_shift_equivariant_refuted :
+  exists eps n s b : R, 0 < eps /\ 0 <= n < eps /\ (s + n * b) / Rmax n eps <> s / Rmax n eps + b.
+Proof. exact starved_mean_update_shift_equivariant_refuted. Qed.
+Print Assumptions C15_starved_component_mean_update_shift_equivariant_refuted.
